@@ -8,7 +8,7 @@
     normalisation heuristic; the encoder/decoder stream round trip. *)
 Require Import Zrs.lib.RsPrelude Zrs.gen.RefTables Zrs.gen.Generated Zrs.model.BitIO Zrs.model.FseDec.
 Require Import Zrs.proofs.C12_Fse.
-Require Import Zrs.model.BitIO Zrs.model.BitStream Zrs.model.SeqEnc Zrs.model.BlockDec Zrs.proofs.C12_Stream Zrs.proofs.C12_SeqStream.
+Require Import Zrs.model.BitIO Zrs.model.BitStream Zrs.model.SeqEnc Zrs.model.BlockDec Zrs.proofs.C12_Stream Zrs.proofs.C12_SeqStream Zrs.proofs.C12_Predef.
 Open Scope Z_scope.
 
 Theorem C12_ll_predefined_eq_ref :
@@ -68,6 +68,20 @@ Theorem C12_sequences_stream_roundtrip : forall Dll Dml Dof sl sm so qs,
     rbr_bits_remaining rf = 0.
 Proof. exact derived_encoder_roundtrip. Qed.
 
+(** ... and for the three predefined tables the hypotheses hold (checked by complete evaluation): sequences coded with
+    the predefined tables round-trip unconditionally *)
+Theorem C12_predefined_sequences_roundtrip : forall qs,
+  qs <> [] -> Forall cseq_ok qs -> Forall (q_in (codes 36) (codes 53) (codes 29)) qs ->
+  let bytes := stream_bytes (enc_fields (enc_of_dec D_ll) (enc_of_dec D_ml) (enc_of_dec D_of) qs) in
+  exists r0 ll r1 of r2 ml r3 vals rf,
+    rbr_skip_padding (rbr_new bytes) = Some r0 /\
+    fse_init_state D_ll r0 = ROk (ll, r1) /\ fse_init_state D_of r1 = ROk (of, r2) /\ fse_init_state D_ml r2 = ROk (ml, r3) /\
+    seq_loop (length qs) (Z.of_nat (length qs)) (sc D_ll D_ml D_of) ll ml of r3 0 [] = ROk (rev vals, rf) /\
+    Forall2 (fun q v => cseq_value q = Some v) qs vals /\
+    rbr_bits_remaining rf = 0.
+Proof. exact predefined_sequences_roundtrip. Qed.
+
+Print Assumptions C12_predefined_sequences_roundtrip.
 Print Assumptions C12_backward_stream_inverse.
 Print Assumptions C12_sequences_stream_roundtrip.
 Print Assumptions C12_ll_predefined_eq_ref.
